@@ -151,6 +151,8 @@ def make_harness(bases):
                 if p:
                     if par is not exp_parent or fld is None or fld.name != p[-1][0] or idx != p[-1][1]:
                         fail("get_parent_info-wrong", at=where, got=(None if fld is None else fld.name, idx))
+                    if fld is not type(par).__dataclass_fields__[fld.name]:
+                        fail("get_parent_info-field-is-not-the-parent-class's-field", at=where)
                     val = getattr(par, fld.name)
                     if (val[idx] if idx is not None else val) is not n:
                         fail("parent-does-not-store-node-there", at=where)
@@ -203,6 +205,62 @@ def make_harness(bases):
     return harness
 
 
+_SAME_LAYOUT_SRC = """
+from dataclasses import dataclass, field
+from models.zoo import VBase
+
+@dataclass(frozen=True)
+class VDialect(VBase):
+    kid: VBase | None = field(default=None, metadata={"dialect": "%s"})
+    kids: tuple[VBase, ...] = field(default=(), metadata={"dialect": "%s"})
+    v: int = 0
+"""
+
+
+def same_layout_harness(e):
+    """Two class objects with one qualified name and one field layout (a class produced twice by
+    a factory / defined again): every Field the Tree hands out is a field of the class of the
+    node it describes."""
+    import dataclasses
+    import sys
+    import types
+
+    from models.zoo import VLeaf
+    from pyoak.tree import Tree
+
+    reset_all()
+    mod = sys.modules.get("vgen_dialects") or types.ModuleType("vgen_dialects")
+    sys.modules["vgen_dialects"] = mod
+    classes = []
+    for tag in ("A", "B"):
+        exec(compile(_SAME_LAYOUT_SRC % (tag, tag), "vgen_dialects", "exec", dont_inherit=True), mod.__dict__)
+        classes.append(mod.__dict__["VDialect"])
+    first = e.pick(["A-used-first", "B-used-first", "only-the-queried-class"], "class_used_first")
+    queried = e.choice(2, "queried_class")
+    order = {"A-used-first": [0], "B-used-first": [1], "only-the-queried-class": []}[first]
+    for k in order:
+        warm = classes[k](kid=VLeaf(v=1), kids=(VLeaf(v=2),))
+        Tree(warm)
+        list(warm.dfs())
+    cls = classes[queried]
+    root = cls(kid=cls(kid=VLeaf(v=3)), kids=(VLeaf(v=4), cls(v=5)))
+    tree = Tree(root)
+    scenario = {"class_used_first": first, "queried_class": "AB"[queried]}
+    own = {f.name: f for f in dataclasses.fields(cls)}
+    for info in list(root.dfs()) + list(root.bfs()):
+        par, fld, idx = tree.get_parent_info(info.node)
+        for what, f in (("Tree.get_parent_info", fld), ("dfs / bfs position info", info.field)):
+            if type(par) is cls and f is not own[f.name]:
+                scenario.update(accessor=what, field=f.name, metadata=dict(f.metadata))
+                e.fail("field-object-belongs-to-another-class", scenario=scenario)
+    for c, f, _i in root.get_child_nodes_with_field():
+        if f is not own[f.name]:
+            scenario.update(accessor="get_child_nodes_with_field", field=f.name, metadata=dict(f.metadata))
+            e.fail("field-object-belongs-to-another-class", scenario=scenario)
+    e.distinct((first, queried))
+    return scenario
+
+
 def spec(tier: str, seed: int) -> Spec:
     if tier == "quick":
         bases = all_shapes(5, 3) + all_shapes(6, 3)[422::3]
@@ -213,7 +271,7 @@ def spec(tier: str, seed: int) -> Spec:
     chunk = 24
     fams = [Family(f"trees[{k}:{k + chunk}]", make_harness(bases[k : k + chunk]), variables="selectors: tree, twins, query kind, member; lazy: exact_type, check_ancestor") for k in range(0, len(bases), chunk)]
     return Spec(
-        families=fams,
+        families=fams + [Family("exotic-classes", make_harness(__import__("models.shapes", fromlist=["exotic_shapes"]).exotic_shapes()), variables="as the tree families; iterable / falsy / slotted / mixin classes, two tuple fields")] + [Family("same-named-classes-with-one-layout", same_layout_harness, variables="selectors: which of two same-named classes was used first, which is queried")],
         functions=FUNCTIONS,
         bounds={"trees": len(bases), "nodes_per_tree": "all shapes up to 5 nodes and every third shape with 6" if tier == "quick" else "all shapes up to 7 nodes", "depth": 3, "ancestor_class_sets": len(ANC_CLASSES)},
         rule="a case = (tree, twins or distinct leaves, query kind) with every node / ordered pair / member twin as argument; all non-trivial; distinct by that tuple",
